@@ -517,4 +517,71 @@ Section P.
     rewrite (run_spec run_tbl Hr (f_m st) p n d Hm Hp Hn Hmsc) in H. exact H.
   Qed.
 
+  (* ---------------------------------------------------------------- histories, on the flows *)
+
+  (* one call of a history on one machine object, through the regenerated flows; the trace reported for a
+     run is the trace of THAT run *)
+  Definition flow_gcall (fl : flows) (st : fstate) (c : gcall) : fstate * outcome :=
+    match c with
+    | GCheck p =>
+      match semc fl 2 st p with
+      | ONormal st' => (st', OAccepted)
+      | ORaise _ st' => (st', ORejected)
+      | _ => (st, ORejected)
+      end
+    | GRun p n =>
+      match semr fl (mkF (f_m st) (f_left st) (f_right st) (f_scales st) []) p (Z.of_nat n) with
+      | OReturn _ st' => (st', ORan (f_trace st'))
+      | ORaise _ st' => (st', OFailed)
+      | _ => (st, OFailed)
+      end
+    end.
+
+  Fixpoint flow_history (fl : flows) (st : fstate) (h : list gcall) : list outcome :=
+    match h with
+    | [] => []
+    | c :: r => let '(st', o) := flow_gcall fl st c in o :: flow_history fl st' r
+    end.
+
+  Definition scales_ok (c : gcall) : bool :=
+    match c with GCheck _ => true | GRun _ n => negb (Nat.eqb n 0) end.
+
+  Lemma flow_gcall_model fl : check_flow_wf fl = true -> run_flow_wf fl = true ->
+    forall st c, clean (f_m st) -> scales_ok c = true ->
+    f_m (fst (flow_gcall fl st c)) = fst (do_gcall check_tbl run_tbl step_ok_of (f_m st) c)
+    /\ snd (flow_gcall fl st c) = snd (do_gcall check_tbl run_tbl step_ok_of (f_m st) c).
+  Proof.
+    intros W1 W2 st c Hm Hn. destruct c as [p | p n]; cbn [flow_gcall do_gcall].
+    - pose proof (sem_check_model fl W1 2 st p (le_n 2) Hm) as H.
+      destruct (check_conf check_tbl step_ok_of (f_m st) p) as [m'|m'].
+      + rewrite H. split; reflexivity.
+      + destruct H as (x & st' & -> & <- & _). split; reflexivity.
+    - assert (Hn1 : (n >= 1)%nat).
+      { cbn [scales_ok] in Hn. destruct n; [discriminate | lia]. }
+      pose proof (sem_run_model fl W2
+                    (mkF (f_m st) (f_left st) (f_right st) (f_scales st) []) p n Hn1 eq_refl) as H.
+      cbn [f_m f_left f_right] in H.
+      destruct (run run_tbl (f_m st) p n) as [m' tr|m' tr].
+      + rewrite H. split; reflexivity.
+      + destruct H as (x & ->). split; reflexivity.
+  Qed.
+
+  (* C01_history_any_pipelines on the flows *)
+  Theorem gen_history_fresh fl : check_flow_wf fl = true -> run_flow_wf fl = true ->
+    forall h st, clean (f_m st) -> forallb scales_ok h = true ->
+    earlier_successful check_tbl run_tbl step_ok_of h = true ->
+    flow_history fl st h = map (fresh_outcome check_tbl run_tbl step_ok_of) h.
+  Proof.
+    intros W1 W2. induction h as [|c r IH]; intros st Hm Hn Hs; [reflexivity|].
+    cbn [forallb] in Hn. apply andb_true_iff in Hn as [Hn1 Hn2].
+    cbn [flow_history map].
+    destruct (flow_gcall_model fl W1 W2 st c Hm Hn1) as [Em Eo].
+    destruct (do_gcall_clean check_tbl run_tbl step_ok_of Hc Hr (f_m st) c Hm) as [Ho Hcl].
+    destruct (flow_gcall fl st c) as [st' o]. cbn [fst snd] in Em, Eo.
+    rewrite Eo, Ho. f_equal.
+    destruct r as [|c2 r2]; [reflexivity|].
+    cbn [earlier_successful] in Hs. apply andb_true_iff in Hs as [Hs1 Hs2].
+    apply IH; auto. rewrite Em. apply Hcl. exact Hs1.
+  Qed.
+
 End P.
